@@ -14,19 +14,19 @@ import (
 
 // Spec is the work order the driver hands a worker process (VERIF_SPEC=<file>).
 type Spec struct {
-	Mode      string   `json:"mode"` // batch | replay | minimize | show
-	Prop      string   `json:"prop"`
-	Tier      string   `json:"tier"`
-	SeedBase  uint64   `json:"seed_base"`
-	IndexFrom uint64   `json:"index_from"`
-	Stride    uint64   `json:"stride"`
-	Count     uint64   `json:"count"`
-	Out       string   `json:"out"`
-	Replay    string   `json:"replay,omitempty"`
-	BudgetMs  int      `json:"budget_ms"`
-	Twice     int      `json:"twice"` // re-run every Nth seed and compare trace hashes
-	KeepTrace bool     `json:"keep_trace"`
-	MaxViol   int      `json:"max_viol"`
+	Mode      string `json:"mode"` // batch | replay | minimize | show
+	Prop      string `json:"prop"`
+	Tier      string `json:"tier"`
+	SeedBase  uint64 `json:"seed_base"`
+	IndexFrom uint64 `json:"index_from"`
+	Stride    uint64 `json:"stride"`
+	Count     uint64 `json:"count"`
+	Out       string `json:"out"`
+	Replay    string `json:"replay,omitempty"`
+	BudgetMs  int    `json:"budget_ms"`
+	Twice     int    `json:"twice"` // re-run every Nth seed and compare trace hashes
+	KeepTrace bool   `json:"keep_trace"`
+	MaxViol   int    `json:"max_viol"`
 }
 
 // ReplayFile is what a VIOLATION line points to.
